@@ -17,7 +17,11 @@ pub fn fz_parse(data: &[u8]) {
         let info = scope::analyse(&tree);
         let v = scope::violations(&info);
         if let Some((kind, msg)) = v.first() {
-            panic!("VERIF-ORACLE C23 accepted:{}: {}", kind, msg);
+            // known finding K11 (undefined operand of fail is accepted) is tolerated, or every
+            // campaign ends at its first rediscovery; VERIF_FUZZ_STRICT=1 reports it
+            if !kind.ends_with(":fail-operand") || std::env::var("VERIF_FUZZ_STRICT").is_ok() {
+                panic!("VERIF-ORACLE C23 accepted:{}: {}", kind, msg);
+            }
         }
         let mut out: Vec<u8> = vec![];
         let _ = air_beautifier::Beautifier::new(&mut out).beautify_ast(&tree);
